@@ -232,6 +232,20 @@ def _ok_blocks(fn):
     return out
 
 
+def _err_name_of(m):
+    """the error a residual carries when it is not a literal: the Err payload of `x.ok_or(E)` / `x.ok_or_else(|| E)` is E"""
+    if m[0] == 'payload' and m[2] == 'Err' and m[1]:
+        names = set()
+        for q in m[1]:
+            if q[0] == 'call' and q[1] == 'std::option::Option::<T>::ok_or' and len(q[2]) == 2 and q[2][1] and all(e[0] == 'agg' for e in q[2][1]):
+                names |= {e[2] for e in q[2][1]}
+            else:
+                return '?'
+        if len(names) == 1:
+            return next(iter(names))
+    return '?'
+
+
 def _errs_from(fn, starts):
     """names of the result variants assigned to _0 on paths from the given blocks (Err(X) -> X, Ok -> 'Ok').
     Path-sensitive for Result/Option literals that flow through `?` on the way (the shape a helper's
@@ -273,7 +287,11 @@ def _errs_from(fn, starts):
                     for n in fn.rvalue_terms(rv, (b, si)):
                         if n[0] == 'agg' and n[2] == 'Err':
                             for m in n[3][0][1]:
-                                errs.add(m[2] if m[0] == 'agg' else '?')
+                                errs.add(m[2] if m[0] == 'agg' else _err_name_of(m))
+                            if not n[3][0][1]:
+                                # the residual of a `?` written out (view 3) whose payload the terms cannot name (`x.ok_or(E)?`: ok_or is
+                                # transparent in terms): reported like the from_residual call it stands for
+                                errs.add('call:std::ops::FromResidual::from_residual')
                         elif n[0] == 'agg' and n[2] == 'Ok':
                             errs.add('Ok')
                     stop = True
@@ -321,6 +339,19 @@ def _errs_from(fn, starts):
             if t['dest']['l'] == 0 and not t['dest']['p']:
                 if path == 'std::ops::FromResidual::from_residual' and ka is not None and ka[0] == 'res':
                     errs.update(ka[1])
+                elif path == 'std::ops::FromResidual::from_residual' and t['args']:
+                    # `?` written out (view 3): the residual is an Err literal whose payload the terms name
+                    names = set()
+                    for n in fn.arg_terms(t, 0, b):
+                        if n[0] == 'agg' and n[2] == 'Err' and n[3] and n[3][0][1] and all(m[0] == 'agg' for m in n[3][0][1]):
+                            names |= {m[2] for m in n[3][0][1]}
+                        else:
+                            names = None
+                            break
+                    if names:
+                        errs.update(names)
+                    else:
+                        errs.add('call:' + str(path))
                 else:
                     errs.add('call:' + str(path))
                 continue
